@@ -49,8 +49,8 @@ EnergyAdapter(x|rest, <op specialised for G1>, constants=G2).
 
 and ift.EnergyAdapter(x, op, constants=K): position/gradient/metric live on keys \\ K only, value,
 gradient and metric equal the restricted quantities of `op`, and after a few minimiser steps (every K for
-<= 3 keys, 6 of the 14 K for 4 keys) the same holds at the final position; the constant part of the reconstructed full position is
-bit-identical.
+<= 3 keys, 6 of the 14 K for 4 keys) the same holds at the final position; the constant part of the
+reconstructed full position is bit-identical.
 
 Intervals (value bounds) are tracked by the GENERATOR only, so that log/sqrt/reciprocal/Poisson
 rates/Bernoulli probabilities/inverse covariances get arguments inside their domain and magnitudes stay
@@ -83,10 +83,11 @@ RULE = ("Typed random multi-key (2-4 keys, <=6 pixels per key) operator and ener
         "keys (BlockDiagonal, PartialExtractor and projections, SumOperator.make with explicit signs, identity "
         "+/- operator, chains, scalings, adjoints) as leaves and around nonlinear parts; energies: Gaussian "
         "(with/without data, inverse covariance), Poissonian, Bernoulli, InverseGamma, StudentT, "
-        "VariableCovarianceGaussian (raw and chained), likelihood sums, scaled likelihoods, AveragedEnergy, StandardHamiltonian with/without "
-        "ic_samp, generic energy sums. For every tree EVERY non-empty proper subset of the input keys is made "
-        "constant; oracle = value / dense Jacobian / dense metric of the specialised operator against the "
-        "corresponding restriction of the un-specialised one; the same for constants fixed group after group "
+        "VariableCovarianceGaussian (raw and chained), likelihood sums, scaled likelihoods, AveragedEnergy, "
+        "StandardHamiltonian with/without ic_samp, generic energy sums. For every tree EVERY non-empty proper "
+        "subset of the input keys is made constant; oracle = value / dense Jacobian / dense metric of the "
+        "specialised operator against the corresponding restriction of the un-specialised one; the same for "
+        "constants fixed group after group "
         "(every ordered partition of a constant set: specialise, then specialise the result again); "
         "EnergyAdapter(constants=K) before and after minimiser steps, also on an already specialised energy.")
 LEVEL_TEXT = ("Generated search over expression programs and inputs with an exhaustive loop over constant-key "
@@ -1767,14 +1768,24 @@ def jax_recipes(draw, tier, energy):
         lh = ["jaxlh", [ka, kb], _vec(ctx, n, NUM)]
         rest = [k for k in names if k not in (ka, kb)]
         r = draw(st.integers(0, 2))
-        if rest or r == 0:
+        if rest and draw(st.booleans()):
+            # Hamiltonian of the jax likelihood alone plus a library likelihood for the other keys: the jax
+            # likelihood itself is specialised whenever exactly one of its two keys is constant (a likelihood sum
+            # is specialised as a whole by the generic insertion path)
+            if r == 1:
+                lh = ["escale", draw(NUM_POS), lh]
+            ham = ["ham", draw(st.sampled_from([None, 3])), draw(st.sampled_from([None, "float"])), lh]
             other = gen_likelihood(ctx, 1, scope, rest)
-            lh = ["lhsum", lh, other] if draw(st.booleans()) else ["lhsum", other, lh]
-        elif r == 1:
-            lh = ["escale", draw(NUM_POS), lh]
-        expr = lh
-        if draw(st.booleans()):
-            expr = ["ham", draw(st.sampled_from([None, 3])), draw(st.sampled_from([None, "float"])), lh]
+            expr = ["esum", ham, other] if draw(st.booleans()) else ["esum", other, ham]
+        else:
+            if rest or r == 0:
+                other = gen_likelihood(ctx, 1, scope, rest)
+                lh = ["lhsum", lh, other] if draw(st.booleans()) else ["lhsum", other, lh]
+            elif r == 1:
+                lh = ["escale", draw(NUM_POS), lh]
+            expr = lh
+            if draw(st.booleans()):
+                expr = ["ham", draw(st.sampled_from([None, 3])), draw(st.sampled_from([None, "float"])), lh]
         return {"types": types, "mtypes": mtypes, "keys": keys, "expr": expr, "seq": _seq(draw, keys),
                 "x": _values(draw, ctx, keys), "y": _values(draw, ctx, keys), "adapter": _adapter(draw)}
     tmpl = draw(st.sampled_from(["expmul", "tanhdiff", "quot", "pair"]))
@@ -1832,6 +1843,7 @@ SUBS = [
     Sub(name="jax_likelihoods", check=check_jax_energy, strategy=lambda tier: jax_recipes(tier, True), jax=True,
         quick=12, thorough=300, shards=2,
         rule="JaxLikelihoodEnergyOperator (function and coordinate transformation both specialised) alone, scaled, "
-             "summed with library likelihoods, inside StandardHamiltonian; metric and EnergyAdapter relations as "
+             "summed with library likelihoods, inside StandardHamiltonian (also: its Hamiltonian plus a library "
+             "likelihood on the other keys); metric and EnergyAdapter relations as "
              "for likelihoods"),
 ]
